@@ -7,12 +7,21 @@ from checks import simcommon as sc
 MODULE = "Nice.Props.C20"
 THEOREMS = [f"Nice.Props.C20.{t}" for t in (
     "C20_bounded_rounds", "C20_unbounded_reauth", "C20_candidates_sound", "C20_done_once",
-    "C20_silent_item_transmissions", "run_done_stays")]
+    "C20_silent_item_transmissions", "run_done_stays",
+    "C20_done_only_when_all_done", "tick_body_spec", "forEach_spec", "C20_tick_return_values")]
 TRUSTED = [
     "Lean 4 kernel; axioms propext, Classical.choice, Quot.sound only (audited every run)",
-    "Nice/Model/Gather.lean: hand-written per-item abstraction of the discovery tick and answer handling (rounds, re-authentication, "
-    "redundancy elimination, per-stream completion flag); tied by simulation: each real gathering run against scripted STUN/TURN "
-    "servers is replayed through the model (`gather run`) and the candidate set / number of requests must match",
+    "Nice/Gen/DiscoveryTick.lean is REGENERATED on every run by tools/extract_ctl.py from the clang AST of agent/discovery.c "
+    "priv_discovery_tick_unlocked: the accounting skeleton of the tick (tracked: not_done, need_pacing, cand->pending, cand->done, "
+    "cand->stun_message.buffer; every other condition is an oracle, every other statement dropped). C20_done_only_when_all_done "
+    "is proved about that regenerated definition for all oracle values. Trusted: the translator (what it drops cannot touch the "
+    "tracked state unless through aliasing/pointers it does not see), Nice/Model/Ctl.lean (loop semantics), and the assumption, "
+    "printed in the generated header, that stun_timer_refresh returns only enumerators of StunUsageTimerReturn",
+    "Nice/Model/Gather.lean: hand-written per-item abstraction of answer handling (rounds, re-authentication, redundancy "
+    "elimination, per-stream completion flag); tied by simulation oracles only: each real gathering run against scripted STUN/TURN "
+    "servers is checked against the consequences the theorems state (completion once, bounded time for finite scripts, candidate "
+    "soundness, completion not before every request is answered or timed out, a candidate for every matched success answer; the "
+    "redundancy rule for reflexive/relayed candidates is libnice's: same IP, port ignored)",
     "scripted servers are built with libnice's own STUN library (long-term credentials, XOR-MAPPED/RELAYED addresses)",
     "the completion time bound is proved only for a bounded number of re-authentication rounds (C20_bounded_rounds); it is FALSE "
     "without that bound (C20_unbounded_reauth, reproduced on the real agent and recorded as a known finding)",
